@@ -423,6 +423,25 @@ def F24():
         return f"count(TagQuery().map(str(len)) == '2') = {c}, expected 1"
 
 
+def F23():
+    d = tempfile.mkdtemp()
+    try:
+        path = os.path.join(d, "db.csv")
+        db = TinyFlux(path)
+        db.insert(Point(time=t(0), tags={"a": "x" * 140000}))
+        try:
+            got = db.all()
+        except Exception as e:  # noqa
+            return f"a tag value of 140000 characters was accepted by insert; afterwards every read raises {type(e).__name__}: {e}"
+        finally:
+            db.close()
+        if len(got) != 1 or len(got[0].tags["a"]) != 140000:
+            return "long tag value did not survive"
+    finally:
+        import shutil
+        shutil.rmtree(d, ignore_errors=True)
+
+
 ALL = [k for k in list(globals()) if re.fullmatch(r"F\d+[a-c]?", k)]
 
 if __name__ == "__main__":
